@@ -5,6 +5,7 @@
 package c06
 
 import (
+	"strconv"
 	"fmt"
 	"os"
 	"reflect"
@@ -460,6 +461,11 @@ func runGen(ci interface{}, s *vkit.Stats) error {
 			want = vkit.Value(reflect.TypeOf(0), c.Code)
 			b.Struct(gi.StructArg).Method("Count").Return(want.Interface())
 			mi = 1
+		case "P6", "P7", "P8", "P9", "P10", "P11", "P12", "P13", "P14":
+			n, _ := strconv.Atoi(c.Method[1:])
+			want = vkit.Value(reflect.TypeOf(0), c.Code)
+			b.Struct(gi.StructArg).Method(c.Method).Return(want.Interface())
+			mi = n
 		case "Sum5":
 			want = vkit.Value(reflect.TypeOf(0), c.Code)
 			b.Struct(gi.StructArg).Method("Sum5").Return(want.Interface())
@@ -483,6 +489,9 @@ func runGen(ci interface{}, s *vkit.Stats) error {
 			return g.Get()
 		case "Count":
 			return reflect.ValueOf(g.Count())
+		case "P6", "P7", "P8", "P9", "P10", "P11", "P12", "P13", "P14":
+			n, _ := strconv.Atoi(c.Method[1:])
+			return reflect.ValueOf(g.Arity(n))
 		case "Sum5":
 			return reflect.ValueOf(g.Sum5())
 		case "WideLen":
@@ -501,7 +510,7 @@ func runGen(ci interface{}, s *vkit.Stats) error {
 			return fmt.Errorf("%s.Get mocked with a callback: it ran %d times and saw receiver %v, the instance is %#x", gi.Name, cbRec.Calls, descAll(cbRec.Args), reflect.ValueOf(gi.Recv).Pointer())
 		}
 	}
-	if !vkit.Same(got, want) && !((c.Method == "Count" || c.Method == "Sum5" || c.Method == "WideLen") && got.Int() == want.Int()) {
+	if !vkit.Same(got, want) && !((c.Method == "Count" || c.Method == "Sum5" || c.Method == "WideLen" || c.Method[0] == 'P') && got.Int() == want.Int()) {
 		return fmt.Errorf("%s.%s stubbed to return %s, caller got %s", gi.Name, c.Method, vkit.Describe(want), vkit.Describe(got))
 	}
 	// instantiations of a different shape are untouched; the other methods of the mocked instantiation too
@@ -551,7 +560,7 @@ func TestVerifC06Generics(t *testing.T) {
 		New: func() interface{} { return &genCase{} },
 		Gen: func(rt *rapid.T) interface{} {
 			return &genCase{Inst: rapid.IntRange(0, len(corpus.GenInsts)-1).Draw(rt, "inst"),
-				Method: rapid.SampledFrom([]string{"Get", "Count", "Zero", "GetCallback", "Sum5", "WideLen"}).Draw(rt, "method"),
+				Method: rapid.SampledFrom([]string{"Get", "Count", "Zero", "GetCallback", "Sum5", "WideLen", "P6", "P7", "P8", "P9", "P10", "P11", "P12", "P13", "P14"}).Draw(rt, "method"),
 				Code:   uint64(vkit.ValueCode().Draw(rt, "code"))}
 		},
 		Run: runGen}
